@@ -8,6 +8,11 @@ EXTRACT = "extraction: the FunctionDef is taken from the current file by qualifi
 
 PROPS = {}
 
+A3_ = "A3: C pointers are (object, offset) in a flat 64-bit address space; every object satisfies 0 < addr and addr + size <= 2^47, so `pos + len > end` style comparisons are evaluated as the target evaluates them and their non-wrapping is proved, not assumed"
+A4_ = "A4: AEAD objects use stream-mode AEAD ciphers (EVP block size 1: the names in quic/crypto.py CIPHER_SUITES, proved as postcondition of CryptoContext.setup); header-protection ciphers have block size <= 16"
+CSEM_ = "cwp's encoding of C (DESIGN 2.2): the clang JSON AST of the real file after preprocessing with the real Python.h / OpenSSL headers; integers are bit-vectors of their LP64 width, implicit conversions executed as recorded in the AST, signed overflow / out-of-range shifts / out-of-bounds or NULL accesses are proof obligations, loops unrolled with an unwinding obligation"
+CSTUBS_ = "trusted C contracts (engine/cwp/stubs.py): PyArg_ParseTuple[AndKeywords] by format string, PyBytes_FromStringAndSize, Py_BuildValue, PyLong_From*, PyErr_*, malloc/free/memcpy/memset/memcmp, OpenSSL EVP_* with the extents of EVP_EncryptInit(3)"
+
 RS = "quic/rangeset.py::RangeSet."
 RX = "quic/stream.py::QuicStreamReceiver."
 TX = "quic/stream.py::QuicStreamSender."
@@ -18,14 +23,20 @@ CALLERS_ONCE = "caller history: the recovery layer reports each sent frame ackno
 
 CONN0 = "quic/connection.py::QuicConnection."
 
+CRY = "quic/crypto.py::"
 PROPS["C02"] = dict(
-    functions=["quic/packet.py::decode_packet_number"],
-    bounded=["native-xcheck-pn"],
-    scope="decided for all inputs: a truncated packet number is expanded to the candidate congruent to it that is closest to the next expected number (window (e-h, e+h]), for all four packet-number lengths, all truncated values and all expected numbers below 2^62",
-    lemma="C02 sentence 1, clause 'a truncated packet number is always expanded to the candidate closest to the next expected number' = ensures.0-3 of decode_packet_number, proved per num_bits with the case split proved complete",
-    not_decided="AEAD/header-protection round trip in _crypto.c, agreement with a second implementation, and 'an altered packet changes nothing' (cryptographic assumptions and C code outside pyvc's reach; the planned C VC generator cwp is not built)",
-    trusted_base=BASE,
-    assumptions=[],
+    functions=[
+        "quic/packet.py::decode_packet_number",
+        CRY + "derive_key_iv_hp", CRY + "CryptoContext.__init__", CRY + "CryptoContext.setup", CRY + "CryptoContext.decrypt_packet", CRY + "CryptoContext.encrypt_packet",
+        CRY + "next_key_phase", CRY + "apply_key_phase", CRY + "CryptoPair.setup_initial", CRY + "CryptoPair.decrypt_packet", CRY + "CryptoPair._update_key",
+        "_crypto.c::AEAD_init", "_crypto.c::AEAD_decrypt", "_crypto.c::AEAD_encrypt", "_crypto.c::HeaderProtection_init", "_crypto.c::HeaderProtection_apply", "_crypto.c::HeaderProtection_remove",
+    ],
+    bounded=["native-xcheck-pn", "ccrypto-boundary"],
+    scope="decided for all inputs: (1) a truncated packet number is expanded to the candidate congruent to it that is closest to the next expected number, for all four lengths (decode_packet_number, and again as postcondition of decrypt_packet); (2) key derivation follows RFC 9001 5.1-5.2 / RFC 9369 3.3: labels 'quic key|iv|hp|ku' resp. 'quicv2 ...' chosen by version, key length by cipher suite, IV 12 bytes, initial salt and 'client in'/'server in' labels by version and role, cipher names by suite; a key update installs AEAD keys, phase bit and the secret the next update starts from; (3) opening: header protection removed first, the AEAD input is everything after the unprotected header, its associated data is the WHOLE unprotected header, its packet number the expanded one, keyed by the current keys iff the key-phase bit of a short header equals the current phase and by the next generation's keys otherwise; CryptoContext.decrypt_packet writes no field of any existing object (checked frame), so a packet that fails to open changes no key state; the key phase advances exactly on an authentic short-header packet carrying the other phase bit; (4) sealing = header protection over (plain header, AEAD(payload, associated data = whole plain header, packet number)); (5) C level, bit-precise: nonce = IV xor packet number (64-bit big-endian, right-aligned), the whole `associated` argument is authenticated, all 16 tag bytes are checked / appended, header protection masks exactly the low 4/5 bits of byte 0 and the pn_length packet-number bytes, sample offset per RFC 9001 5.4.2, remove() returns the unmasked header and the non-negative truncated number",
+    lemma="C02 sentence 1 (bit-exact recovery by an independent RFC implementation): the Python contracts say WHICH values reach the primitives (uninterpreted HKDF / AEAD / mask functions), the C contracts say the primitives are invoked on exactly those values, and the bounded stand-in ccrypto-boundary compares the compiled C with `cryptography` on boundary lengths; clause 'closest candidate' = decode_packet_number. Sentence 2 at the crypto layer: decrypt_packet raises CryptoError unless the AEAD opens (assumption: opening succeeds only for a genuine sealing) and has an empty frame",
+    not_decided="unforgeability of the AEAD (cryptographic assumption), the connection layer's reaction to CryptoError (receive_datagram: drop without events - not under contract), Retry integrity tag, expected_packet_number bookkeeping in receive_datagram, agreement of OpenSSL with the RFC test vectors beyond the bounded stand-in",
+    trusted_base=BASE + [CSEM_, CSTUBS_, A3_, A4_, "uninterpreted primitives hkdf_label / hkdf_ext / aead_seal / hp_apply / hash_of_suite (contracts/quic_crypto.py): what is proved is which arguments reach them", "AEAD authenticity assumption: AEAD.decrypt returns normally only for the sealing of its result under the same key, nonce and associated data"],
+    assumptions=[A3_, A4_, "CryptoPair.recv is not CryptoPair.send (two fresh contexts from __init__, assumed at setup_initial/_update_key/decrypt_packet)"],
 )
 
 PROPS["C06"] = dict(
@@ -133,13 +144,13 @@ PROPS["C15"] = dict(
 )
 
 PROPS["C17"] = dict(
-    functions=["buffer.py::size_uint_var"],
-    bounded=["varint-codec", "native-xcheck-varint"],
-    scope="decided for all integers: size_uint_var returns the RFC 9000 §16 minimal length in {1,2,4,8} and raises ValueError exactly above 2^62-1; the C encoder/decoder (_buffer.c push_uint_var / pull_uint_var) is compared with an RFC-derived spec function only by the bounded stand-in varint-codec (boundary values and random samples)",
-    lemma="varint length clause of C17; the round trip of the C codec is bounded only",
-    not_decided="_buffer.c functional correctness (C outside pyvc; cwp not built), packet headers, transport parameters, TLS messages",
-    trusted_base=BASE,
-    assumptions=[],
+    functions=["buffer.py::size_uint_var"] + ["_buffer.c::Buffer_" + n for n in ("data_slice", "eof", "pull_bytes", "pull_uint8", "pull_uint16", "pull_uint32", "pull_uint64", "pull_uint_var", "push_bytes", "push_uint8", "push_uint16", "push_uint32", "push_uint64", "push_uint_var", "seek", "tell", "capacity_getter", "data_getter")] + ["lemma::varint_roundtrip", "lemma::fixed_roundtrip"],
+    bounded=["varint-codec", "native-xcheck-varint", "cbuffer-model"],
+    scope="decided for all values, positions and capacities (bit-vector proof on the real C): every fixed-width push/pull is the big-endian encoding / decoding of its width, push_uint_var writes exactly the minimal RFC 9000 section 16 encoding (1/2/4/8 bytes by value, two-bit length prefix) and raises ValueError exactly above 2^62-1, pull_uint_var returns exactly the RFC decoding of the bytes at the position and advances by the encoded length; BufferReadError / BufferWriteError exactly when the bytes do not fit, and then position and bytes are unchanged ('never reading past the declared length'); round trip decode(encode(v)) = v and length agreement as lemmas over the two specification functions; size_uint_var = minimal length, ValueError exactly above 2^62-1",
+    lemma="C17 'variable-length integer, fixed-width integer' clauses: encoder postcondition (bytes written = enc(v)) + decoder postcondition (value = dec(bytes)) + lemma dec(enc(v)) = v and |enc(v)| = size(v); the specification functions are written from RFC 9000 section 16, not from the C code ('independent encoder')",
+    not_decided="ACK range sets, packet headers, Retry / Version Negotiation, transport parameters, TLS handshake messages (Python codecs over the Buffer contract: not under contract yet); out-of-range integers passed to the fixed-width push functions are truncated by the CPython argument parser (format units B/H/I/K do no overflow checking) - the contracts take the parsed value as the value",
+    trusted_base=BASE + [CSEM_, CSTUBS_, A3_],
+    assumptions=[A3_],
 )
 
 
